@@ -35,6 +35,7 @@ fn dispatch(cmd: &str, rest: &[String]) {
 		"window-record" => window::record(rest),
 		"action-replay" => action::replay(rest),
 		"action-probe" => action::probe(rest),
+		"action-steps" => action::steps(rest),
 		"api-replay" => api::replay(rest),
 		"doc-record" => api::doc_record(rest),
 		"params-replay" => params::replay(rest),
